@@ -146,8 +146,12 @@ class Integrator(object):
     def compute_h_minimum(self):
         a_eval = self.acceleration_evals[0]
 
-        hmin = 1.0
+        hmin = np.inf
         for pa in a_eval.particle_arrays:
+            if pa.get_number_of_particles() == 0:
+                # An empty array has no smoothing length (its h.minimum is
+                # a meaningless 0).
+                continue
             if pa.gpu:
                 h = pa.gpu.get_device_array('h')
             else:
@@ -156,6 +160,8 @@ class Integrator(object):
             if h.minimum < hmin:
                 hmin = h.minimum
 
+        if np.isinf(hmin):
+            hmin = 1.0
         self.h_minimum = hmin
 
     def compute_time_step(self, dt, cfl):
